@@ -530,7 +530,7 @@ func main() {
 			"distinct_nontrivial": r.P.Counters["nontrivial"],
 			"unspecified_skipped": r.P.Counters["unspecified_skipped"],
 			"samples":             samples,
-			"rule": fmt.Sprintf("Part A: every value of S1{Str,Strs} (%d values: Str over %d strings x Strs over all lists of bounded length + a 40-element list + the empty non-nil slice) and of S2{I,I8,U,U32,F64,F32,B,Is,Fs,Bs,Us,F32s} (%d values: scalar product x 3 slice configurations, plus scalar base points x product of the slice lists) "+
+			"rule": fmt.Sprintf("Part A: every value of S1{Str,Strs} (%d values: Str over %d strings x Strs over all lists of length <= 2 (quick: <= 1, plus length 2 over 8 symbols) + lists of length 3 over 6 symbols (thorough) + a 40-element list + the empty non-nil slice) and of S2{I,I8,U,U32,F64,F32,B,Is,Fs,Bs,Us,F32s} (%d values: scalar product x 3 slice configurations, plus scalar base points x product of the slice lists) "+
 				"is sent with the bundled client's struct API of each of the 8 sources under splitting{off,on} x auto-handling{off,on} x {per-source bind method, Bind().Body() for body carriers} and compared with the struct decoded in the handler; pairs the carrier cannot legally transport, and comma-containing values under splitting, are skipped and counted; a case is non-trivial when the sent struct holds something an encoder/decoder pair can get wrong (a string that is empty or has a byte outside [A-Za-z0-9], a non-empty slice, a number at a type limit / non-integral / beyond 2^53). "+
 				"Part B: %d groups (5 key-value carriers x 5 bind targets x splitting; 5 body bind calls x 10 content types x 3 targets) each over all single hostile components and all ordered pairs of them, each request run with manual and automatic handling, judged for panic / error / status / paired consistency / allocation; non-trivial = the request got past the HTTP parser and reached the binder.",
 				len(shapes[0].Values), len(strAlpha), len(shapes[1].Values), len(groups)),
